@@ -39,6 +39,9 @@ pub enum Step {
     Probe { sender: String, funds: Vec<Coin>, msg: ExecuteMsg },
     /// executed on a copy and judged like an executed request (exhaustive exploration)
     Try { sender: String, funds: Vec<Coin>, msg: ExecuteMsg },
+    /// a request of a kind the model does not know (JSON text of the contract's own message type);
+    /// executed on a copy, must have no effect
+    Unknown { sender: String, funds: Vec<Coin>, kind: String, json: String },
     Migrate { msg: MigrateMsg },
     Query { msg: QueryMsg },
     SetMarker { denom: String, kind: u8 },
